@@ -1228,9 +1228,6 @@ enum cc_stat cc_slist_iter_add(CC_SListIter *iter, void *element)
 
     iter->current->next = new_node;
 
-    iter->prev    = iter->current;
-    iter->current = new_node;
-
     if (iter->index == iter->list->size)
         iter->list->tail = new_node;
 
@@ -1286,8 +1283,12 @@ enum cc_stat cc_slist_iter_next(CC_SListIter *iter, void **out)
 
     void *data = iter->next->data;
 
-    if (iter->current)
+    if (iter->current) {
         iter->prev = iter->current;
+        /* elements added through the iterator sit between current and next */
+        while (iter->prev->next != iter->next)
+            iter->prev = iter->prev->next;
+    }
 
     iter->current = iter->next;
     iter->next = iter->next->next;
@@ -1349,11 +1350,17 @@ enum cc_stat cc_slist_zip_iter_next(CC_SListZipIter *iter, void **out1, void **o
     void *data1 = iter->l1_next->data;
     void *data2 = iter->l2_next->data;
 
-    if (iter->l1_current)
+    if (iter->l1_current) {
         iter->l1_prev = iter->l1_current;
+        while (iter->l1_prev->next != iter->l1_next)
+            iter->l1_prev = iter->l1_prev->next;
+    }
 
-    if (iter->l2_current)
+    if (iter->l2_current) {
         iter->l2_prev = iter->l2_current;
+        while (iter->l2_prev->next != iter->l2_next)
+            iter->l2_prev = iter->l2_prev->next;
+    }
 
     iter->l1_current = iter->l1_next;
     iter->l2_current = iter->l2_next;
@@ -1406,11 +1413,6 @@ enum cc_stat cc_slist_zip_iter_add(CC_SListZipIter *iter, void *e1, void *e2)
 
     iter->l1_current->next = new_node1;
     iter->l2_current->next = new_node2;
-
-    iter->l1_prev    = iter->l1_current;
-    iter->l2_prev    = iter->l2_current;
-    iter->l1_current = new_node1;
-    iter->l2_current = new_node2;
 
     if (iter->index == iter->l1->size)
         iter->l1->tail = new_node1;
